@@ -17,15 +17,16 @@ PROP = {
             'index>=count, padLen past end, truncated, empty, reserved bits), short-header packet, advance 1 ms..20 s, flood of 1-12 first '
             'chunks}; global-cap cases: 513-640 sources, 4000-4096 pending in 1-4 age classes, 0-700 overflow first-chunks, 1-4 tracked '
             'messages. Non-trivial: a message of >= 3 chunks completed in non-identity order with a foreign frame in between, or a '
-            'per-source cap / TTL expiry / global eviction event. Send: non-trivial when a long-header write had at least one datagram '
-            'that could fit the range. Distinct = distinct step trace / configuration.',
+            'per-source cap / TTL expiry / global eviction event. Send: every option combination (both / only min / only max / neither; values below, at and above the defaults '
+            '512/1200 and the bounds 1/2048, illegal ones included): either the constructor rejects, or every datagram that can fit lies in '
+            '[min or 512, max or 1200]; non-trivial when a long-header write had at least one datagram that could fit the range. Distinct = distinct step trace / configuration.',
     'assumptions': ['two concurrently pending messages of one source never share the 8-bit message id (indistinguishable by design; excluded by construction, counted)',
                     'frames handed to the receiver are at most 2048 bytes (the read buffer) and chunk counts are 2..8 as the sender draws them',
                     'when the global cap forces an eviction the victim must be among the oldest pending messages (the mechanism named in the anchors); '
                     'which message loses at the per-source cap is left to the implementation',
                     'an entry may outlive its TTL by at most one sweep period (4 s); inside that window either outcome is accepted'],
     'tests': [
-        {'name': 'TestVerifC14_Send', 'unit': OBFS, 'quick': 800, 'thorough': 4000, 'shards_thorough': 8},
+        {'name': 'TestVerifC14_Send', 'unit': OBFS, 'quick': 1000, 'thorough': 4000, 'shards_thorough': 8},
         {'name': 'TestVerifC14_Receive', 'unit': OBFS, 'quick': 12000, 'thorough': 40000, 'shards_thorough': 12},
         {'name': 'TestVerifC14_GlobalCap', 'unit': OBFS, 'quick': 60, 'thorough': 300, 'shards_thorough': 8},
         {'name': 'TestVerifC14_RoundTrip', 'unit': OBFS, 'quick': 4000, 'thorough': 15000, 'shards_thorough': 8},
